@@ -18,7 +18,7 @@ import random
 from vlib import vc2util
 from vlib.gen import configs
 
-STATS = {"built": 0, "validated": 0, "encoder_rejected": 0, "random_dropped": 0}
+STATS = {"built": 0, "validated": 0, "encoder_rejected": 0, "not_accepted": 0}
 _CACHE = {}
 
 # --------------------------------------------------------------------------
@@ -257,23 +257,52 @@ def _encode(recipe):
     return seq
 
 
-def _finish(label, seqs, out, strict=True):
+VALIDATION_STEP_BUDGET = 60000000
+
+
+def _validate_bounded(data):
+    """validator verdict kind, or "no-result" when it does not come back within
+    VALIDATION_STEP_BUDGET repository function entries (a tree under test may hang)"""
+    import sys
+
+    from vlib import worker
+
+    if hasattr(sys, "monitoring") and sys.monitoring.get_tool(worker.StepCounter.TOOL) is None:
+        try:
+            with worker.StepCounter(VALIDATION_STEP_BUDGET):
+                return vc2util.validate(data, keep_pictures=False)
+        except worker.StepBudgetExceeded:
+            return None
+    return vc2util.validate(data, keep_pictures=False)
+
+
+def _finish(label, seqs, out, strict=True, validate=True):
     data = vc2util.serialise(seqs)
     STATS["built"] += 1
-    v = vc2util.validate(data, keep_pictures=False)
-    if v.kind != "ok":
+    if not validate:
+        out.append((label, data))
+        return True
+    v = _validate_bounded(data)
+    if v is None or v.kind != "ok":
+        what = "no verdict within step budget" if v is None else "%s %s at %s" % (v.kind, v.exc_class, v.site)
         if strict:
-            raise AssertionError("corpus stream %s is not accepted by the validator: %s %s at %s" % (label, v.kind, v.exc_class, v.site))
-        STATS["random_dropped"] += 1
+            raise AssertionError("corpus stream %s is not accepted by the validator: %s" % (label, what))
+        STATS["not_accepted"] = STATS.get("not_accepted", 0) + 1
         return False
     STATS["validated"] += 1
     out.append((label, data))
     return True
 
 
-def seed_corpus(seed=0, size="quick"):
-    """-> list of (label, bytes) valid streams; cached per process."""
-    key = (int(seed), size)
+def seed_corpus(seed=0, size="quick", validate=True, strict=True):
+    """-> list of (label, bytes) valid streams; cached per process.
+
+    validate: run the real validator over every stream while building (under a
+    step budget) -- a check that validates the seeds itself as cases (C02) may
+    switch this off.  strict: a hand-written stream that is not accepted raises
+    AssertionError; with strict=False it is dropped and counted in
+    STATS["not_accepted"] (the randomly drawn tail is always non-strict)."""
+    key = (int(seed), size, bool(validate), bool(strict))
     if key in _CACHE:
         return _CACHE[key]
     out = []
@@ -283,7 +312,7 @@ def seed_corpus(seed=0, size="quick"):
         if seq is None:
             raise AssertionError("hand-written corpus recipe %s rejected by the encoder" % label)
         seqs[label] = seq
-        _finish(label, [seq], out)
+        _finish(label, [seq], out, strict, validate)
     rng = random.Random("corpus-variants")
     for label, members, variants in COMPOSITES:
         ss = []
@@ -292,9 +321,10 @@ def seed_corpus(seed=0, size="quick"):
             for vname in variants:
                 s = VARIANTS[vname](s, rng)
             ss.append(s)
-        _finish(label, ss, out)
-    _finish("hdr-eos-only", [_header_only_sequence(copy.deepcopy(seqs["hq-asym-idx"]))], out)
-    _finish("hdr-eos-only-v1+2seq", [_header_only_sequence(copy.deepcopy(seqs["ld-min"])), copy.deepcopy(seqs["ld-min"])], out)
+        _finish(label, ss, out, strict, validate)
+    _finish("hdr-eos-only", [_header_only_sequence(copy.deepcopy(seqs["hq-asym-idx"]))], out, strict, validate)
+    _finish("hdr-eos-only-v1+2seq", [_header_only_sequence(copy.deepcopy(seqs["ld-min"])), copy.deepcopy(seqs["ld-min"])],
+            out, strict, validate)
     # randomly drawn tail (small pictures so that the streams stay a few hundred bytes)
     nrand = 10 if size == "quick" else 60
     rng = random.Random("corpus/%d" % int(seed))
@@ -314,7 +344,7 @@ def seed_corpus(seed=0, size="quick"):
             continue
         if rng.random() < 0.3:
             seq = VARIANTS[rng.choice(["pad", "rephdr", "zeronext"])](seq, rng)
-        if _finish("rand%d:%s" % (got, configs.stratum(r)), [seq], out, strict=False):
+        if _finish("rand%d:%s" % (got, configs.stratum(r)), [seq], out, False, validate):
             got += 1
     _CACHE[key] = out
     return out
